@@ -23,6 +23,7 @@ LEVEL_TEXT = ("After every event, for every added identity with positive bound: 
 LEVEL_NOTE = "cell sharing is observed on an empty probe sketch; thresholds above the bound are not required to report the key"
 BUDGET = {"quick": 75, "thorough": 360}
 SHARDS = {"quick": 1, "thorough": 16}
+BOUNDSCHECK = True
 
 
 def check_sketch(mon, s, ghost, cells, d, w, ids, cfg, ev):
